@@ -213,6 +213,11 @@ func runC05(ctx *harness.Ctx) {
 		es := entriesForKind(c.S.Kind)
 		e := es[rapid.IntRange(0, len(es)-1).Draw(t, "entry")]
 		ctx.Sample(map[string]any{"leg": "generated", "input": q(trunc(c.Text, 300))})
+		if fp := farPrefix(t, 120, false); fp != "" {
+			ctx.Class("far-offset")
+			one(t, "generated", e, fp+c.Text) // every position beyond 2^15 / 2^16 / 2^17
+			return
+		}
 		one(t, "generated", e, c.Text)
 	})
 	ctx.Rapid("generated-relaxed", ctx.Pick(5000, 100000), func(t *rapid.T) {
@@ -233,6 +238,14 @@ func runC05(ctx *harness.Ctx) {
 		c := drawGenLong(t, "", 2)
 		es := entriesForKind(c.S.Kind)
 		one(t, "generated-long", es[rapid.IntRange(0, len(es)-1).Draw(t, "entry")], c.Text)
+	})
+	ctx.Leg("size-sweep", func() {
+		forSweep(ctx, func(entry, src string, n int) bool {
+			if n%3 == 0 || n > 250 { // positions: every third size, and all sizes near the top
+				one(nil, "size-sweep", entryByName[entry], src)
+			}
+			return ctx.ViolationCount() < 6
+		})
 	})
 	ctx.Rapid("generated-list", ctx.Pick(1000, 20000), func(t *rapid.T) {
 		n := rapid.IntRange(2, 3).Draw(t, "n")
@@ -448,6 +461,30 @@ func runC06(ctx *harness.Ctx) {
 		}
 		ctx.Sample(map[string]any{"leg": "generated", "input": q(trunc(c.Text, 300))})
 		one(t, "generated", specificEntry(c.S.Kind), c.Text)
+	})
+	// accepted inputs that are not sentences of G: relaxed sentences, one pseudo keyword back-quoted, token / clause-order mutants
+	// (what the parser accepts beyond the documentation still has to have exact ranges)
+	ctx.Rapid("generated-relaxed", ctx.Pick(800, 15000), func(t *rapid.T) {
+		c := drawGenRelaxed(t, "", rapid.SampledFrom([]int{1, 2, 2}).Draw(t, "depth"))
+		if len(c.Text) > 600 {
+			return
+		}
+		one(t, "generated-relaxed", specificEntry(c.S.Kind), c.Text)
+	})
+	ctx.Rapid("quoted-pseudo-keyword", ctx.Pick(2500, 40000), func(t *rapid.T) {
+		c, ok := drawGenQuotedPKW(t, "", rapid.SampledFrom([]int{1, 2, 2}).Draw(t, "depth"))
+		if !ok || len(c.Text) > 600 {
+			return
+		}
+		one(t, "quoted-pseudo-keyword", specificEntry(c.S.Kind), c.Text)
+	})
+	ctx.Rapid("mutant", ctx.Pick(2500, 40000), func(t *rapid.T) {
+		s := drawValid(t)
+		if len(s.Src) > 600 {
+			return
+		}
+		src := mutate.Tokens(t, s.Src, 1)
+		one(t, "mutant", specificEntry(s.Kind), src)
 	})
 	var pl []any
 	for k := range pairs {
